@@ -95,7 +95,7 @@ def run_case(case):
         for k in range(len(snap["target_times"]) - 1):
             w = np.linalg.eigvalsh(e2e.step_hamiltonian(snap, k, "mid"))
             gaps.append(w[1] - w[0])
-        if n <= 6 and min(gaps) >= 0.5 and "did not converge" in str(raised):
+        if n <= 6 and min(gaps) >= 0.5 and "did not converge" in str(raised) and cap >= 2 ** (n // 2):  # with a binding max_bond_dim the sweeps may legitimately oscillate
             viol.append({"key": "C09:dmrg-did-not-converge-on-gapped-instance", "msg": f"{fp}: min gap {min(gaps):.3f}: {raised}"[:300]})
         elif "did not converge" in str(raised):
             cnt["rejected"] += 1
